@@ -16,6 +16,7 @@ const (
 	vpSecEnq
 	vpSecDone
 	vpSFCleanup
+	vpWaitAfterSend
 )
 
 func verifPoint(id int) {}
